@@ -451,6 +451,13 @@ pub fn generate(seed: u64, index: u64, thorough: bool) -> Scenario {
                 body.clear();
                 body_class = "empty";
             }
+            18 => {
+                // the document once more, as JSON text inside a JSON string (a client that
+                // stringified twice): well-formed, and a string, whatever its content looks like
+                let text = String::from_utf8_lossy(&body).to_string();
+                body = serde_json::to_vec(&serde_json::Value::String(text)).unwrap();
+                body_class = "double-encoded";
+            }
             17 => {
                 // over the configured limit (set below)
                 let pad = if thorough && rng.chance(1, 50) { 2 * 1024 * 1024 + 10 } else { 300 + rng.below(3000) };
